@@ -95,7 +95,7 @@ func r18_1(c *Ctx, rule string) {
 	for i, l := range looks {
 		ex := c.explorer(fn)
 		ex.From = l
-		ex.Assume = map[string]bool{l.Name() + "#1": true}
+		ex.Assume = map[string]bool{c.reg(l) + "#1": true}
 		ex.Barrier = func(in ssa.Instruction, st *eng.State) bool { return in == ssa.Instruction(rs) }
 		ex.Target = func(in ssa.Instruction, st *eng.State) bool { return isRec(in) || isMark(in) }
 		ex.StopAtTarget = true
@@ -131,7 +131,9 @@ func r18_1(c *Ctx, rule string) {
 	c.R.Check(len(tnil) >= 1, rule, base+"/targets-tests", c.P.Pos(fn.Pos()), "the presence of link targets is tested", "append does not test whether readSymlink returned targets")
 	// recursion only with targets
 	if len(tnil) > 0 {
-		as := map[string]bool{}
+		// the value itself is pinned (not only the outcome of its tests): a
+		// range over the absent targets has no iteration
+		as := map[string]bool{"(" + c.reg(rs.Value()) + "#0==nil)": true}
 		for _, k := range tnil {
 			as[k] = false
 		}
